@@ -19,19 +19,56 @@ void verif_unmodelled(const char* name) { (void)name; __CPROVER_assert(0, "UNMOD
 void X_verif_assert(uint32_t c) { __CPROVER_assert(c, "H: wrapper/shim assertion"); }
 
 /* heap: allocation never fails (allocation failure is outside every claim) */
-#ifdef VERIF_NEW_BLOCK
+#if defined(VERIF_NEW_BLOCK) && defined(VERIF_NEW_POOL)
+/* opt-in (unit gen_defs=['VERIF_NEW_POOL=k'], k <= 16): deterministic bump allocator. The i-th operator new call of a run
+ * returns the i-th static block, so two symbolic-execution paths that performed the same number of allocations agree on
+ * every heap pointer (with CBMC's malloc each path gets its own object and every later heap access is a case split over
+ * them). Blocks are separate objects (bounds are still checked per block) and are never reused; operator delete checks
+ * "came from operator new, not deleted twice". NOT detected in this mode: access to a block after operator delete.
+ * More than k allocations / a request above the block size = reported bound failure. */
+#define VERIF_POOL_BLK(i) static uint8_t verif_blk##i[VERIF_NEW_BLOCK];
+VERIF_POOL_BLK(0) VERIF_POOL_BLK(1) VERIF_POOL_BLK(2) VERIF_POOL_BLK(3) VERIF_POOL_BLK(4) VERIF_POOL_BLK(5) VERIF_POOL_BLK(6) VERIF_POOL_BLK(7)
+VERIF_POOL_BLK(8) VERIF_POOL_BLK(9) VERIF_POOL_BLK(10) VERIF_POOL_BLK(11) VERIF_POOL_BLK(12) VERIF_POOL_BLK(13) VERIF_POOL_BLK(14) VERIF_POOL_BLK(15)
+static uint8_t* const verif_blks[16] = {verif_blk0, verif_blk1, verif_blk2, verif_blk3, verif_blk4, verif_blk5, verif_blk6, verif_blk7,
+                                        verif_blk8, verif_blk9, verif_blk10, verif_blk11, verif_blk12, verif_blk13, verif_blk14, verif_blk15};
+static uint32_t verif_pool_n; static uint8_t verif_pool_freed[16];
+static uint8_t* verif_new(uint64_t n) {
+  __CPROVER_assert(n <= VERIF_NEW_BLOCK, "BOUND: operator new request exceeds VERIF_NEW_BLOCK"); __CPROVER_assume(n <= VERIF_NEW_BLOCK);
+  __CPROVER_assert(verif_pool_n < VERIF_NEW_POOL && verif_pool_n < 16, "BOUND: more operator new calls than VERIF_NEW_POOL"); __CPROVER_assume(verif_pool_n < VERIF_NEW_POOL && verif_pool_n < 16);
+  return verif_blks[verif_pool_n++];
+}
+static void verif_delete(uint8_t* p) {
+  if (!p) return;
+  int found = 0;
+#define VERIF_POOL_DEL(i) if (p == verif_blk##i && i < verif_pool_n) { __CPROVER_assert(!verif_pool_freed[i], "operator delete: block deleted twice"); verif_pool_freed[i] = 1; found = 1; }
+  VERIF_POOL_DEL(0) VERIF_POOL_DEL(1) VERIF_POOL_DEL(2) VERIF_POOL_DEL(3) VERIF_POOL_DEL(4) VERIF_POOL_DEL(5) VERIF_POOL_DEL(6) VERIF_POOL_DEL(7)
+  VERIF_POOL_DEL(8) VERIF_POOL_DEL(9) VERIF_POOL_DEL(10) VERIF_POOL_DEL(11) VERIF_POOL_DEL(12) VERIF_POOL_DEL(13) VERIF_POOL_DEL(14) VERIF_POOL_DEL(15)
+  __CPROVER_assert(found, "operator delete: pointer was not returned by operator new");
+}
+#elif defined(VERIF_NEW_BLOCK)
 /* operator new hands out fixed-size blocks (std::string / std::vector storage): a request above the block size is an
  * assertion failure ("bound"), never silently truncated. Symbolic-size heap objects send CBMC into its array theory. */
-static uint8_t* verif_new(uint64_t n) { __CPROVER_assert(n <= VERIF_NEW_BLOCK, "BOUND: operator new request exceeds VERIF_NEW_BLOCK"); __CPROVER_assume(n <= VERIF_NEW_BLOCK); uint8_t* p = malloc(VERIF_NEW_BLOCK); __CPROVER_assume(p != 0); return p; }
+/* opt-in (unit gen_defs=['VERIF_NEW_U64']): the block is allocated as uint64_t[VERIF_NEW_BLOCK/8] instead of bytes. Same
+ * memory, but CBMC types the object as an array of words: the pointer/size members of std::string / std::vector stored in
+ * it become whole-element reads that symbolic execution constant-folds (measured: Arguments(1 empty token) 200k steps and
+ * solver out of memory with byte blocks -> 6k steps, 1 s). Keep blocks <= 64 words (--max-field-sensitivity-array-size). */
+#ifdef VERIF_NEW_U64
+#define VERIF_NEW_MALLOC() ((uint8_t*)malloc(sizeof(uint64_t) * ((VERIF_NEW_BLOCK + 7) / 8)))
+#else
+#define VERIF_NEW_MALLOC() malloc(VERIF_NEW_BLOCK)
+#endif
+static uint8_t* verif_new(uint64_t n) { __CPROVER_assert(n <= VERIF_NEW_BLOCK, "BOUND: operator new request exceeds VERIF_NEW_BLOCK"); __CPROVER_assume(n <= VERIF_NEW_BLOCK); uint8_t* p = VERIF_NEW_MALLOC(); __CPROVER_assume(p != 0); return p; }
+#define verif_delete(p) free(p)
 #else
 static uint8_t* verif_new(uint64_t n) { uint8_t* p = malloc(n); __CPROVER_assume(p != 0); return p; }
+#define verif_delete(p) free(p)
 #endif
 uint8_t* X__Znwm(uint64_t n) { return verif_new(n); }
 uint8_t* X__Znam(uint64_t n) { return verif_new(n); }
-void X__ZdlPv(uint8_t* p) { free(p); }
-void X__ZdlPvm(uint8_t* p, uint64_t n) { (void)n; free(p); }
-void X__ZdaPv(uint8_t* p) { free(p); }
-void X__ZdaPvm(uint8_t* p, uint64_t n) { (void)n; free(p); }
+void X__ZdlPv(uint8_t* p) { verif_delete(p); }
+void X__ZdlPvm(uint8_t* p, uint64_t n) { (void)n; verif_delete(p); }
+void X__ZdaPv(uint8_t* p) { verif_delete(p); }
+void X__ZdaPvm(uint8_t* p, uint64_t n) { (void)n; verif_delete(p); }
 uint8_t* X_malloc(uint64_t n) { uint8_t* p = malloc(n); __CPROVER_assume(p != 0); return p; }
 uint8_t* X_calloc(uint64_t a, uint64_t b) { uint8_t* p = calloc(a, b); __CPROVER_assume(p != 0); return p; }
 uint8_t* X_realloc(uint8_t* q, uint64_t n) { uint8_t* p = realloc(q, n); __CPROVER_assume(p != 0); return p; }
@@ -88,6 +125,7 @@ void X___cxa_pure_virtual(void) { __CPROVER_assert(0, "pure virtual call"); __CP
 void X___clang_call_terminate(uint8_t* p) { (void)p; __CPROVER_assert(0, "std::terminate reached"); __CPROVER_assume(0); }
 uint32_t X___gxx_personality_v0() { return 0; }
 uint32_t X___cxa_atexit(uint8_t* f, uint8_t* a, uint8_t* d) { (void)f; (void)a; (void)d; return 0; }
+uint32_t X___cxa_thread_atexit(uint8_t* f, uint8_t* a, uint8_t* d) { (void)f; (void)a; (void)d; return 0; } /* thread_local destructors: like atexit, never run inside a query */
 uint8_t X___dso_handle; /* IR type: external global i8 */
 uint32_t X___cxa_guard_acquire(uint8_t* g) { return *g == 0; }
 void X___cxa_guard_release(uint8_t* g) { *g = 1; }
